@@ -66,7 +66,7 @@ PROPS = {
     "C04": {"lean": CTLMOD, "prefixes": ["c04_", "c18_consistent", "c09_start_fences_stale", "ctl_reachable_inv"],
             "runs": [ctl("reads", 480, 30, 9000, 40, 13)], "modelled": CTL},
     "C05": {"lean": CTLMOD + ["JivaVerif.Properties.C02Hist"], "prefixes": ["c05_", "c02_failed_detached", "c02_in_service_holds_acked", "c18_removed_silent", "ctl_reachable_inv"],
-            "runs": [ctl("faults", 640, 30, 12000, 40, 14), rep("rebuild", 160, 30, 3000, 40, 48)], "modelled": CTL + [
+            "runs": [ctl("faults", 640, 30, 12000, 40, 14), dict(rep("rebuild", 160, 30, 1500, 40, 48), **{"thorough": {"n": 1500, "len": 40, "timeout": 6000}})], "modelled": CTL + [
                 "integration: in the replicadiff rebuild profile one of three real RW replicas is killed (REST endpoint 503, data connections cut) behind the real remote backend / RPC client / monitoring; the write that follows must be acknowledged, the dead replica must leave the controller's list, and the survivors' images stay equal (requests killq, cmp)",
                 "partial: that the detector fires (ping ticker, RPC deadline, TCP close) is runtime behaviour; the model takes 'the monitor fires' / 'the call returns an error' as events"]},
     "C08": {"lean": ["JivaVerif.Properties.C08", "JivaVerif.Properties.C08Fail", "JivaVerif.Properties.C08Data", "JivaVerif.Properties.C12"], "prefixes": ["c08_", "c12_reopen", "recovers_untouched", "encode_effect", "flow_ge", "flow_cases", "old_survives_"],
@@ -85,7 +85,7 @@ PROPS = {
             "runs": [ctl("election", 480, 30, 9000, 40, 15)], "modelled": CTL + [
                 "partial: the replica-side registration loop (sync.AddReplica, 5 s ticker) is modelled as 'registration may repeat'"]},
     "C13": {"lean": CTLMOD, "prefixes": ["c13_", "ctl_reachable_inv"],
-            "runs": [ctl("snapshots", 480, 30, 9000, 40, 16), rep("rebuild", 160, 30, 3000, 40, 38)],
+            "runs": [ctl("snapshots", 480, 30, 9000, 40, 16), dict(rep("rebuild", 160, 30, 1500, 40, 38), **{"thorough": {"n": 1500, "len": 40, "timeout": 6000}})],
             "modelled": CTL + ["data half: in the rebuild profile, once all three real replicas are RW, volume snapshots are taken through the real controller between foreground writes and the chains and volume images of the three replicas are compared with each other (request cmp) and with the model"]},
     "C18": {"lean": CTLMOD, "prefixes": ["c18_", "c07_single_wo", "ctl_reachable_inv", "run_rf", "step_rf"],
             "runs": [ctl("membership", 480, 30, 9000, 40, 17)], "modelled": CTL},
@@ -95,7 +95,7 @@ PROPS = {
             "runs": [rep("snapshots", 640, 32, 10000, 45, 2)], "modelled": FS},
     "C07": {"lean": ["JivaVerif.Properties.C07", "JivaVerif.Properties.Controller"],
             "prefixes": ["c07_", "sameWrites_", "c10_promotion", "ctl_reachable_inv"],
-            "runs": [rep("rebuild", 320, 30, 8000, 40, 8), ctl("membership", 320, 30, 6000, 40, 18),
+            "runs": [dict(rep("rebuild", 320, 30, 3000, 40, 8), **{"thorough": {"n": 3000, "len": 40, "timeout": 6000}}), ctl("membership", 320, 30, 6000, 40, 18),
                      dict(rep("rebuildreal", 16, 25, 320, 30, 28), **{"quick": {"n": 16, "len": 25, "timeout": 900}, "thorough": {"n": 320, "len": 30, "timeout": 6000}})],
             "modelled": FS + CTL + [
                 "harness (rebuild profile): a REAL controller with the REAL remote backend drives three REAL replicas behind their REST and RPC servers on loopback addresses (harness/stack); the harness plays the sync agent only: it copies the source's snapshot files (holes preserved) and head metadata under the newcomer, reloads it without preload and calls UpdateLUNMap, as sync.syncFiles / reloadAndVerify do",
